@@ -16,6 +16,9 @@ func runC09(h *H) {
 		switch k % 8 {
 		case 0, 1: // add / sub with all aliasing patterns
 			v1, v2, _ := g.vecPair()
+			if g.intn(8) == 0 {
+				v1, v2 = g.vecPairBig()
+			}
 			op := "add"
 			if k%8 == 1 {
 				op = "sub"
@@ -95,7 +98,9 @@ func runC09(h *H) {
 			h.emit(h.line("C09", "scale").F(a).Vec(v).Bar().Vec(recv))
 		case 3: // dot (both orders)
 			v1, v2, _ := g.vecPair()
-			if g.intn(3) == 0 {
+			if g.intn(4) == 0 {
+				v1, v2 = g.vecPairBig()
+			} else if g.intn(3) == 0 {
 				xs := g.illConditioned(g.intn(5) + 1)
 				v1 = g.vecFromValues(xs, g.intn(3))
 				v2 = &sparse.Vector{Dim: v1.Dim}
@@ -128,6 +133,17 @@ func runC09(h *H) {
 			dim := g.intn(9) + 1
 			m := g.csm(dim, dim, g.valueClass())
 			v := g.vec(dim)
+			if g.intn(10) == 0 {
+				// a wide matrix with short rows against a well-filled vector (rows of a trust matrix against the
+				// trust vector): lopsided dot products inside MulVec
+				dim = 40 + g.intn(200)
+				m = &sparse.CSMatrix{MajorDim: dim, MinorDim: dim, Entries: make([][]sparse.Entry, dim)}
+				for i := 0; i < dim; i += 1 + g.intn(6) {
+					m.Entries[i] = g.vecOn(dim, g.support(dim, 1+g.intn(6)), "positive").Entries
+				}
+				v = g.vecOn(dim, g.support(dim, 32+g.intn(dim-31)), "positive")
+				g.count("mulvec:short-rows-long-vector")
+			}
 			mis := g.intn(12) == 0
 			if mis {
 				switch g.intn(3) {
